@@ -69,6 +69,9 @@ JOBS = {
     "C10": [
         {"cmd": "c10-engine", "race": True, "batches": {"quick": 2, "thorough": 6}, "timeout": {"quick": 600, "thorough": 2400}},
     ],
+    "C11": [
+        {"cmd": "c11-proc", "race": False, "needs_mosn_binary": True, "batches": {"quick": 2, "thorough": 3}, "timeout": {"quick": 900, "thorough": 2400}},
+    ],
     "C12": [
         {"cmd": "c12-updates", "race": True, "batches": {"quick": 2, "thorough": 6}, "timeout": {"quick": 600, "thorough": 2400},
          "race_anchors": ["router.(*routersManagerImpl)", "router.(*RoutersWrapper)", "cluster.(*simpleCluster).UpdateHosts", "configmanager.Set"]},
